@@ -935,13 +935,19 @@ class Exec:
                 continue
             lem = LEMMAS[lname]
             args = binder(self.ns(st))
+            at = args.pop("_at", None)      # use the (inductive) lemma at these indices only, not for all k
             for name, term in lem.hyp(**args):
                 self.oblige(st, "lemma", anchor, lname + "." + name, term)
             if lem.conclusion is not None:
-                concl = lem.conclusion(**args)
+                st.assume(lem.conclusion(**args))
+            elif at is not None:
+                for kv in at:
+                    kv = getattr(kv, "z3", kv)
+                    self.oblige(st, "lemma", anchor, lname + ".index-in-range",
+                                L.conj(L.le(lem.lo(**args), kv), L.lt(kv, lem.hi(**args))))
+                    st.assume(lem.concl(k=kv, **args))
             else:
-                concl = L.forall(lem.lo(**args), lem.hi(**args), lambda k: lem.concl(k=k, **args))
-            st.assume(concl)
+                st.assume(L.forall(lem.lo(**args), lem.hi(**args), lambda k: lem.concl(k=k, **args)))
         for (a, fnh) in getattr(c, "late_hints", []):
             if a != anchor:
                 continue
